@@ -180,6 +180,33 @@ Lemma stepv_relab s x X : stepv (relabv s x) X = relabv s (stepv x X).
 Proof. by apply/rowP=> j; rewrite !mxE. Qed.
 
 
+(* ---------- homogeneity: how the harness' common denominators enter
+   (P = Pz / D, positions x = xs / S:  marker P x y = marker Pz xs ys / (D^3 S^2)) ---------- *)
+Lemma marker_scaleP (c : C) P a b i : c \is Num.real ->
+  marker (c *: P) a b i = c ^+ 3 * marker P a b i.
+Proof.
+move=> rc; rewrite /marker /tripleP.
+do 4![rewrite -?scalemxAl -?scalemxAr]; rewrite !scalerA mxE ImMl ?rpredM //.
+Qed.
+
+Lemma marker_scale_ab (s t : C) P a b i : s \is Num.real -> t \is Num.real ->
+  marker P (s *: a) (t *: b) i = s * t * marker P a b i.
+Proof.
+move=> rs rt; rewrite /marker /tripleP !linearZ /=.
+do 4![rewrite -?scalemxAl -?scalemxAr]; rewrite !scalerA mxE ImMl ?rpredM //.
+by rewrite (mulrC t).
+Qed.
+
+Lemma scaled_projector (c : C) P : c != 0 -> c \is Num.real -> hermitian P -> P *m P = c *: P ->
+  hermitian (c^-1 *: P) /\ idempotent (c^-1 *: P).
+Proof.
+move=> c0 rc hP iP; have rci : c^-1 \is Num.real by rewrite rpredV.
+split.
+  apply/matrixP=> i j; rewrite adjmxE !mxE rmorphM -[in RHS]hP adjmxE.
+  by rewrite (CrealP rci).
+by rewrite /idempotent -scalemxAl -scalemxAr iP !scalerA mulfVK.
+Qed.
+
 (* ---------- the property's clauses for the two markers ---------- *)
 Lemma crosshair_real P x y X Y i : crosshair P x y X Y i \is Num.real.
 Proof. exact: marker_real. Qed.
